@@ -772,6 +772,14 @@ theorem saveBlock_micro (s : State) (b : Header) (hp : Pre U Vp s) (hb : HdrOK U
             exact hp.2.2.1 h (by rw [← f2]; exact this)
           · rw [hc.2.1]; exact hU1
 
+theorem Pre.orphanDelete {s : State} (hp : Pre U Vp s) (id : Nat) : Pre U Vp (s.orphanDelete id) := by
+  have hc := orphanDelete_core s id
+  refine ⟨?_, ?_, ?_, ?_⟩
+  · intro h hh; exact hp.1 h (hc.2.2.2.1 ▸ hh)
+  · intro h hh; exact hp.2.1 h (hc.2.2.2.1 ▸ hh)
+  · intro h hh; exact hp.2.2.1 h (orphanDelete_orphans s id h hh)
+  · rw [hc.2.1]; exact hp.2.2.2
+
 theorem saveSubBlock_micro : ∀ (fuel : Nat) (s : State) (id : Nat), Pre U Vp s →
     MicroStar U Vp s (State.saveSubBlock fuel s id) ∧ Pre U Vp (State.saveSubBlock fuel s id) := by
   intro fuel
@@ -790,13 +798,13 @@ theorem saveSubBlock_micro : ∀ (fuel : Nat) (s : State) (id : Nat), Pre U Vp s
             | none => st
             | some ob =>
               let (st1, ok) := st.saveBlock ob
-              if !ok then st1 else State.saveSubBlock fuel st1 o) st) ∧
+              if !ok then st1.orphanDelete o else State.saveSubBlock fuel st1 o) st) ∧
           Pre U Vp (ws.foldl (fun st o =>
             match lookupHeader st.orphans o with
             | none => st
             | some ob =>
               let (st1, ok) := st.saveBlock ob
-              if !ok then st1 else State.saveSubBlock fuel st1 o) st) := by
+              if !ok then st1.orphanDelete o else State.saveSubBlock fuel st1 o) st) := by
         intro ws
         induction ws with
         | nil => intro st hst; exact ⟨.refl _, hst⟩
@@ -807,12 +815,12 @@ theorem saveSubBlock_micro : ∀ (fuel : Nat) (s : State) (id : Nat), Pre U Vp s
               | none => st
               | some ob =>
                 let (st1, ok) := st.saveBlock ob
-                if !ok then st1 else State.saveSubBlock fuel st1 o) ∧
+                if !ok then st1.orphanDelete o else State.saveSubBlock fuel st1 o) ∧
               Pre U Vp (match lookupHeader st.orphans o with
               | none => st
               | some ob =>
                 let (st1, ok) := st.saveBlock ob
-                if !ok then st1 else State.saveSubBlock fuel st1 o) := by
+                if !ok then st1.orphanDelete o else State.saveSubBlock fuel st1 o) := by
             split
             · exact ⟨.refl _, hst⟩
             · rename_i ob hob
@@ -822,7 +830,7 @@ theorem saveSubBlock_micro : ∀ (fuel : Nat) (s : State) (id : Nat), Pre U Vp s
               obtain ⟨st1, ok⟩ := res
               simp only at m1 p1 ⊢
               split
-              · exact ⟨m1, p1⟩
+              · exact ⟨m1.tail (Micro.frame (orphanDelete_core st1 o)), Pre.orphanDelete U Vp p1 o⟩
               · obtain ⟨m2, p2⟩ := ih st1 o p1
                 exact ⟨m1.trans m2, p2⟩
           obtain ⟨m1, p1⟩ := step
